@@ -190,8 +190,57 @@ pub fn rm_fields(msg: &Bytes) -> Option<String> {
 
 pub struct Built { pub token: String, pub bytes: Bytes }
 
+thread_local! { static FLAVOUR: std::cell::Cell<(u64, u64)> = const { std::cell::Cell::new((0, 0)) }; }
+
+/// Wire-level variation that the message tokens do not show (and the state machine must not care about): with a
+/// non-zero salt every message built afterwards on this thread gets a per-peer-header timestamp of 0 ("unavailable"),
+/// a small or a large one — so a Peer Down can be older than its Peer Up — and a Peer Down carries any of the reason
+/// codes 1-6 (NOTIFICATION PDU, FSM event code, no data, RFC 9069 TLV). The choice is a function of the salt and the
+/// number of messages built since, so a case replays byte for byte when the salt is derived from the case itself
+/// (`flavour_of`). Salt 0 = the encode helpers' plain messages.
+pub fn set_flavour(salt: u64) { FLAVOUR.with(|f| f.set((salt, 0))); }
+pub fn flavour_of(specs: &[Spec]) -> u64 {
+    let mut h: u64 = 0xcbf29ce484222325;
+    for b in format!("{specs:?}").bytes() { h ^= b as u64; h = h.wrapping_mul(0x100000001b3); }
+    h | 1
+}
+fn next_choice() -> Option<u64> {
+    FLAVOUR.with(|f| { let (salt, n) = f.get(); if salt == 0 { return None; } f.set((salt, n + 1));
+        let mut z = salt.wrapping_add(n.wrapping_mul(0x9E3779B97F4A7C15)); z = (z ^ (z >> 30)).wrapping_mul(0xBF58476D1CE4E5B9); z = (z ^ (z >> 27)).wrapping_mul(0x94D049BB133111EB); Some(z ^ (z >> 31)) })
+}
+fn flavoured(bytes: Bytes) -> Bytes {
+    let Some(r) = next_choice() else { return bytes };
+    let mut b = bytes.to_vec();
+    let typ = b.get(5).copied().unwrap_or(255);
+    if b.len() >= 48 && matches!(typ, 0 | 1 | 2 | 3 | 6) {
+        let ts: u32 = match r % 4 { 0 => 0, 1 => 1_000, 2 => 1_700_000_000, _ => 2_000_000_000 };
+        b[40..44].copy_from_slice(&ts.to_be_bytes()); b[44..48].copy_from_slice(&0u32.to_be_bytes());
+    }
+    if typ == 2 && b.len() >= 49 {
+        let notif = |code: u8, sub: u8| { let mut v = vec![0xffu8; 16]; v.extend([0, 21, 3, code, sub]); v };
+        b.truncate(48);
+        match (r >> 8) % 7 {
+            0 => { b.push(1); b.extend(notif(6, 2)); }
+            1 => { b.push(2); b.extend([0, 9]); }
+            2 => { b.push(3); b.extend(notif(6, 4)); }
+            3 => b.push(4),
+            4 => b.push(5),
+            5 => { b.push(6); b.extend([0, 3, 0, 4, b'v', b'r', b'f', b'1']); }
+            _ => { b.push(3); b.extend(notif(4, 0)); }
+        }
+        let n = b.len() as u32; b[1..5].copy_from_slice(&n.to_be_bytes());
+    }
+    Bytes::from(b)
+}
+
 /// Real bytes + model token for one message.
 pub fn build(spec: &Spec) -> Option<Built> {
+    let mut b = build_plain(spec)?;
+    if !matches!(spec, Spec::Rm(..)) { b.bytes = flavoured(b.bytes); }
+    Some(b)
+}
+
+fn build_plain(spec: &Spec) -> Option<Built> {
     Some(match spec {
         Spec::Init => Built { token: "i".into(), bytes: encode::mk_initiation_msg("test-router", "test-desc") },
         Spec::Term => Built { token: "t".into(), bytes: encode::mk_termination_msg() },
